@@ -59,7 +59,7 @@ void h_fs_is_empty(void)
 	r = fs_is_empty(&DK, IN.blockmax);
 	holds = IN.has_file || IN.has_link || IN.has_dir || (IN.has_extent && IN.extent_pos < IN.blockmax);
 	VERIF_ASSERT(r == 0 || r == 1, "fs_is_empty returns 0 or 1");
-	VERIF_ASSERT((r == 0) == (holds != 0), "a disk is empty only if it has no file, no link, no empty directory and no block below blockmax");
+	VERIF_ASSERT(!holds || r == 0, "a disk is empty only if it has no file, no link, no empty directory and no block below blockmax");
 	VERIF_ASSERT(g_lock == 0, "the lock is released on every path");
 	VERIF_CANARY();
 }
